@@ -331,6 +331,14 @@ def run(rep):
                         mb = re.fullmatch(r"\(%s < (.*)\)" % re.escape(cv or "?"), ccond or "")
                         bexp = mb.group(1) if mb and c0 == "0" and cinc in ("(++%s)" % cv, "(%s++)" % cv, "(%s += 1)" % cv) else None
                         bound = naxes if bexp in ("dimension()", "this.dimension()") else int(bexp) if bexp and re.fullmatch(r"\d+", bexp) else None
+                        if bound is None and bexp is not None:
+                            # a compile-time constant spelled otherwise (num_channels<...>::value): the value clang's constant evaluator gives the right operand
+                            cn = R.strip(scal_loop.get("cond"))
+                            rn = cn.get("r") if isinstance(cn, dict) and cn.get("k") == "Binary" else None
+                            while isinstance(rn, dict) and "const" not in rn and rn.get("k") in ("Paren", "ImplicitCast", "ExplicitCast"):
+                                rn = rn.get("e")
+                            if isinstance(rn, dict) and re.fullmatch(r"\d+", str(rn.get("const", ""))):
+                                bound = int(rn["const"])
                         leff = [k for k, _, _ in effects(scal_loop["body"])]
                         Pc = "%s[%s]" % (env["P"], cv)
                         if leff not in (["(%s = (%s / $1))" % (Pc, Pc)], ["(%s /= $1)" % Pc]):
